@@ -731,6 +731,9 @@ func argString(a []Arg) string {
 // happened in between; a second derivation with the same operation and arguments from
 // unchanged parents must be observed equal to the first.
 func judgeC09(name string, sc *Script, r *RunOut, o *Obs) {
+	for _, d := range r.HostChanged {
+		o.add(name, "C09:host-value-changed", d+": an operation of the language wrote through into a slice the host had handed over")
+	}
 	if len(sc.Clients) != 1 {
 		return
 	}
